@@ -51,6 +51,11 @@ type VP9Header struct {
 	ReservedColor     bool // value of the reserved_zero bit of color_config in profiles 1/3
 	WidthMinus1       uint16
 	HeightMinus1      uint16
+	// IntraOnly (non-key frames that are not shown): the frame carries intra_only = 1, a sync code, (profile > 0) a colour
+	// configuration, refresh flags and a frame size of its own - it is still a non-key frame
+	IntraOnly    bool
+	ResetContext uint8 // reset_frame_context, written when error_resilient_mode is 0
+	RefreshFlags uint8
 }
 
 // Encode writes the header; it returns the bytes and the number of header bits.
@@ -88,6 +93,33 @@ func (h *VP9Header) Encode() ([]byte, int) {
 		} else if h.Profile == 1 || h.Profile == 3 {
 			w.Flag(h.ReservedColor)
 		}
+		w.Put(uint64(h.WidthMinus1), 16)
+		w.Put(uint64(h.HeightMinus1), 16)
+	} else if h.IntraOnly && !h.ShowFrame {
+		w.Flag(true) // intra_only
+		if !h.ErrorRes {
+			w.Put(uint64(h.ResetContext&3), 2)
+		}
+		w.Put(0x49, 8)
+		w.Put(0x83, 8)
+		w.Put(0x42, 8)
+		if h.Profile > 0 {
+			if h.Profile >= 2 {
+				w.Flag(h.TenOrTwelve)
+			}
+			w.Put(uint64(h.ColorSpace), 3)
+			if h.ColorSpace != 7 {
+				w.Flag(h.ColorRange)
+				if h.Profile == 1 || h.Profile == 3 {
+					w.Flag(h.SubX)
+					w.Flag(h.SubY)
+					w.Flag(h.ReservedColor)
+				}
+			} else if h.Profile == 1 || h.Profile == 3 {
+				w.Flag(h.ReservedColor)
+			}
+		}
+		w.Put(uint64(h.RefreshFlags), 8)
 		w.Put(uint64(h.WidthMinus1), 16)
 		w.Put(uint64(h.HeightMinus1), 16)
 	}
